@@ -152,6 +152,19 @@ def run_case(c):
                         np.abs(l1 - l2).max(), ls_, perm.tolist(), p2s2.tolist(), np.round(q, 4).tolist()), reordered_primitive=True)
         else:
             bad("reordered_primitive", "Primitive(positions_to_reorder=permuted positions) lists other atoms: p2s_map %s vs %s" % (p2s2.tolist(), p2s.tolist()))
+    # the zone centre given as a non-zero reciprocal lattice vector: D(G) = U D(0) U^+ with the intra-cell phases (complex in general), same spectrum
+    lam0_ = np.linalg.eigvalsh(_eig(dm, np.zeros(3), lang))
+    for _ in range(3):
+        G = rng.integers(-3, 4, size=3)
+        if not G.any():
+            G[int(rng.integers(3))] = 1
+        DG = _eig(dm, G.astype(float), lang)
+        lamG_ = np.linalg.eigvalsh((DG + DG.conj().T) / 2)
+        obs["n_G_periodic"] = obs.get("n_G_periodic", 0) + 1
+        obs["n_zone_centre_as_G"] = obs.get("n_zone_centre_as_G", 0) + 1
+        obs["n_zone_centre_as_G_complex"] = obs.get("n_zone_centre_as_G_complex", 0) + int(np.abs(DG.imag).max() > 1e-9 * max(np.abs(DG).max(), fscale))
+        if np.abs(lamG_ - lam0_).max() > 1e-10 * max(np.abs(lam0_).max(), fscale):
+            bad("G_periodicity", "spectrum at q=G=%s differs from the spectrum at q=0 by %.3e (scale %.3e)" % (G.tolist(), np.abs(lamG_ - lam0_).max(), max(np.abs(lam0_).max(), fscale)), zone_centre=True)
     for q in qs:
         D = _eig(dm, q, lang)
         s = max(np.abs(D).max(), fscale)
